@@ -275,7 +275,7 @@ def getitem(I, o, k):
         return str_getitem(I, o, k)
     if isinstance(o, str) and (isinstance(k, SymInt) or (isinstance(k, slice) and contains_sym([k.start, k.stop, k.step]))):
         return str_getitem(I, SymStr([Atom.lit(o)]), k)
-    if isinstance(o, dict) and isinstance(k, SYM):
+    if isinstance(o, dict) and (isinstance(k, SYM) or (isinstance(k, str) and any(isinstance(x, SymKey) for x in o))):
         return dict_lookup(I, o, k, None, True)
     if isinstance(o, (list, tuple)) and isinstance(k, SymInt):
         n = len(o)
@@ -410,8 +410,9 @@ def _enumerate_values(I, v, limit):
 def dict_lookup(I, d, k, default, raise_):
     """d[k] / d.get(k, default) for a symbolic key over concrete keys: fork per key"""
     tp = pytype(k)
-    keys = [x for x in d.keys() if isinstance(x, tp) or (tp in (int, bool) and isinstance(x, (int, bool)))]
-    conds = [bterm(I.eq(k, x)) for x in keys]
+    keys = [x for x in d.keys() if isinstance(x, tp) or (tp in (int, bool) and isinstance(x, (int, bool))) or
+            (isinstance(x, SymKey) and pytype(x.s) is tp)]
+    conds = [bterm(I.eq(k, x.s if isinstance(x, SymKey) else x)) for x in keys]
     none = Not(Or(*conds)) if conds else True
     j = I.choose_feasible(conds + [none])
     if j < len(keys):
@@ -505,9 +506,9 @@ def contains(I, item, cont):
             return mkbool(Or(*parts))
         return I.native(operator.contains, cont, item)
     if isinstance(cont, (dict, set, frozenset)) or type(cont).__name__ in ("dict_keys",):
-        if isinstance(item, SYM):
-            keys = [x for x in cont if isinstance(x, pytype(item))]
-            return mkbool(Or(*[bterm(I.eq(item, x)) for x in keys]))
+        if isinstance(item, SYM) or (isinstance(item, str) and any(isinstance(x, SymKey) for x in cont)):
+            keys = [x for x in cont if isinstance(x, pytype(item)) or isinstance(x, SymKey)]
+            return mkbool(Or(*[bterm(I.eq(item, x.s if isinstance(x, SymKey) else x)) for x in keys]))
         return I.native(operator.contains, cont, item)
     if isinstance(cont, SYM):
         I.raise_(TypeError("argument of type '%s' is not iterable" % pytype(cont).__name__))
@@ -1597,7 +1598,7 @@ def _list_search(I, lst, args, kwargs):
 
 @method_model(dict, "get")
 def _dict_get(I, d, args, kwargs):
-    if isinstance(args[0], SYM):
+    if isinstance(args[0], SYM) or (isinstance(args[0], str) and any(isinstance(x, SymKey) for x in d)):
         return dict_lookup(I, d, args[0], args[1] if len(args) > 1 else None, False)
     return I.native(d.get, *args)
 
